@@ -122,19 +122,11 @@ PROPS = {
     ),
     'C16': dict(
         contract_files=['contracts/comm.py'],
-        level='bounded',
-        trusted_base=COMMON_TRUSTED,
+        level='proof',
+        trusted_base=COMMON_TRUSTED + ['recv() contract (bytes or an exception); JOIN defined through recv()'],
         uncovered=['atomic request/reply pairing under the communicate lock, discarding stale data, reconnection (StringIO / BytesIO.communicate,'
-                   ' IOBase.check_connection): concurrency and time - no sequential contract in reach; line / block assembly evaluated (bounded)'],
+                   ' IOBase.check_connection): concurrency and time - no sequential contract in reach'],
         bounded=[CB('comm-contracts', 'contracts/comm.py', 'gens_comm', budget=120)],
-    ),
-    'C06': dict(
-        contract_files=['contracts/describe.py'],
-        level='bounded',
-        trusted_base=COMMON_TRUSTED,
-        uncovered=['datainfo accepts / rejects exactly what the node does (that is C03 + C01 on the same datatype object), interface classes'
-                   ' and features, main-unit substitution: not covered here; description assembly has no deductive contract (strings, generated classes)'],
-        bounded=[CB('describe-contracts', 'contracts/describe.py', 'gens_describe')],
     ),
     'C07': dict(
         contract_files=['contracts/protocol.py'],
